@@ -311,7 +311,7 @@ def summarise_for(frame, st: ast.For, env, guard: G) -> bool:
 
 
 def _summarise(frame, target, iter_node, body, env, guard: G, node) -> bool:
-    from .gvn import Vec, PW, Obj, Event, Unsupported, cases_of
+    from .gvn import Vec, PW, Obj, Event, Unsupported, cases_of, veq
     ev = frame.ev
     depth = ev.gen_depth
     accs = _acc_names(body, env)
@@ -441,7 +441,8 @@ def _summarise(frame, target, iter_node, body, env, guard: G, node) -> bool:
             finally:
                 ev.gen_depth = old
         per, end, names = attempt({})
-        closed: Dict[str, Rat] = {}
+        closed: Dict[str, Any] = {}
+        chained: List[str] = []
         incs: Dict[str, Rat] = {}
         delayed: Dict[str, Rat] = {}
         sums: Dict[str, Rat] = {}
@@ -453,16 +454,18 @@ def _summarise(frame, target, iter_node, body, env, guard: G, node) -> bool:
                 continue
             if not mentions(new, [str(rec[n])]):
                 if mentions(new, recnames):
-                    raise NoSummary(f"{n} depends on another carried variable")
+                    # a chain of delay lines (g = f; f = h: a sliding window): resolved below, once the lines it reads are known
+                    chained.append(n)
+                    continue
                 read_first = any(mentions(v_, [str(rec[n])]) or mentions(g_, [str(rec[n])]) for a_ in accs for g_, v_, _s in per[a_]) \
                     or any(mentions(end.get(m_), [str(rec[n])]) for m_ in carried if m_ != n)
                 if read_first:
                     # a delay line: the value read in iteration v is the one written in iteration v - step,
                     # x(v) = F(v - step), provided the value before the loop is F(lo - step)
-                    if not isinstance(new, Rat) or not isinstance(env[n], Rat):
+                    if not isinstance(new, (Rat, Vec)) or not isinstance(env[n], (Rat, Vec)):
                         raise NoSummary(f"{n} is carried from the previous iteration and is not a plain value")
-                    prev = new.subst({varname: var.sub(step)})
-                    if not env[n].equals(new.subst({varname: lo.sub(step)})):
+                    prev = subst_value(new, {varname: var.sub(step)})
+                    if not veq(env[n], subst_value(new, {varname: lo.sub(step)})):
                         raise NoSummary(f"{n}: the value before the loop is not the one the previous iteration would have left")
                     closed[n] = prev
                     delayed[n] = new
@@ -485,6 +488,26 @@ def _summarise(frame, target, iter_node, body, env, guard: G, node) -> bool:
                 continue
             incs[n] = c
             closed[n] = env[n].add(var.sub(lo).div(step).mul(c))
+        progress = True
+        while chained and progress:
+            progress = False
+            for n in list(chained):
+                new = end.get(n)
+                others = [m_ for m_ in carried if m_ != n and mentions(new, [str(rec[m_])])]
+                if not all(m_ in delayed for m_ in others):
+                    continue
+                # what it holds after iteration v, with the lines it reads written out
+                F = subst_value(new, {str(rec[m_]): closed[m_] for m_ in others}) if all(isinstance(closed[m_], Rat) for m_ in others) else _subst_syms(new, {str(rec[m_]): closed[m_] for m_ in others})
+                if not isinstance(F, (Rat, Vec)) or not isinstance(env[n], (Rat, Vec)):
+                    raise NoSummary(f"{n} is carried from the previous iteration and is not a plain value")
+                if not veq(env[n], subst_value(F, {varname: lo.sub(step)})):
+                    raise NoSummary(f"{n}: the value before the loop is not the one the previous iteration would have left")
+                closed[n] = subst_value(F, {varname: var.sub(step)})
+                delayed[n] = F
+                chained.remove(n)
+                progress = True
+        if chained:
+            raise NoSummary(f"{chained[0]} depends on another carried variable")
         if closed:
             per, end, names = attempt(closed)
             for n, c in incs.items():
@@ -493,7 +516,7 @@ def _summarise(frame, target, iter_node, body, env, guard: G, node) -> bool:
                     raise NoSummary(f"{n}: recurrence not confirmed with the closed form")
             for n, F in delayed.items():
                 new = end.get(n)
-                if not (isinstance(new, Rat) and new.equals(F)):
+                if not (isinstance(new, (Rat, Vec)) and veq(new, F)):
                     raise NoSummary(f"{n}: delay line not confirmed")
                 after[n] = ev.fresh_sym(n + "@after")
             for n in carried:
@@ -542,6 +565,19 @@ def _summarise(frame, target, iter_node, body, env, guard: G, node) -> bool:
         else:
             env[n] = v
     return True
+
+
+def _subst_syms(v, mapping):
+    """Replace plain symbols by values that may be vectors: a point-valued line read as a whole (g = f)."""
+    from .gvn import Vec
+    if isinstance(v, Rat):
+        a = v.atoms()
+        if len(a) == 1 and a[0].kind == "sym" and a[0].name in mapping and v.equals(Rat.from_atom(a[0])):
+            return mapping[a[0].name]
+        return v.subst({k: x for k, x in mapping.items() if isinstance(x, Rat)})
+    if isinstance(v, Vec):
+        return Vec([_subst_syms(i, mapping) for i in v.items], v.kind)
+    return v
 
 
 def _strided_zip(frame, target, iter_node, env):
